@@ -351,6 +351,7 @@ func checkC06(w *World, r *Report) {
 	r.Explanation = "Decides the confinement clause of C06 on every path of the current source: (R06.1) in every function reachable from a render root, every dynamic call of a FilterFunc/FunctionFunc value, and every built-in arm selected by the same name, is dominated by a sandbox guard (flag test + SecurityPolicy query for the same name value, failing side returns) ; (R06.2) every RenderContext acquired while another context is in scope inherits that context's sandboxed flag before it can reach an evaluating call; (R06.3) the flag is only ever set to true or to an inherited value outside the pool reset; (R06.5) no filter/function value is converted to interface{} in render-reachable code. R06.1 ∧ R06.2 ∧ R06.3 imply that below a sandboxed include every invocation is preceded by a policy query for exactly the invoked name, for every template, nesting and policy. Not decided: liveness (allowed constructs keep working), correctness of a user's SecurityPolicy."
 	r.Explanation += " Rules added in later rounds: (R06.6) policy queries are pure; (R06.7) nested renders use derived contexts; (R06.8) every filter written becomes a node that applies it; (R06.9) a sandboxed include sets the flag on every path. (R06.10) the package's policy answers with the list's value, never key presence."
 	r.Explanation += " Round 9: (R06.11) evaluation on behalf of a context stays in that context."
+	r.Explanation += " Round 10: (R06.12) nested contexts keep the environment of the render; (R06.13) all questions put to the policy are formed alike."
 	r.RuleText = "obligation = (rule, function, call site or store); non-trivial = needed a dominance/dataflow argument (all of them)"
 	r.Trusted = []string{"go/types, go/ssa, VTA∪CHA call graph over-approximate calls", "reflect.Value.Call on user methods is outside the property's subject"}
 	r.Assumptions = []string{"every dynamic call of a filter/function goes through a value of the named types FilterFunc/FunctionFunc (R06.5 checks no conversion to interface{} occurs)"}
